@@ -284,16 +284,45 @@ pub fn run_on<T: View>(q: &str, doc: &T) -> Obs {
     }
 }
 
+/// the same value with the members of every object in sorted order (what serde_json's default BTreeMap build
+/// would present): a different but equally faithful member order
+fn sorted_members(v: &Value) -> Value {
+    match v {
+        Value::Array(a) => Value::Array(a.iter().map(sorted_members).collect()),
+        Value::Object(m) => {
+            let mut ks: Vec<&String> = m.keys().collect();
+            ks.sort();
+            Value::Object(ks.into_iter().map(|k| (k.clone(), sorted_members(&m[k]))).collect::<Map<_, _>>())
+        }
+        other => other.clone(),
+    }
+}
+
 pub struct Doc3 {
     pub v: Value,
     pub a: AltA,
     pub b: AltB,
+    /// AltA over the member-sorted document
+    pub c: AltA,
 }
 
 impl Doc3 {
     pub fn new(v: &Value) -> Doc3 {
-        Doc3 { v: v.clone(), a: AltA::from_json(v), b: AltB::from_json(v) }
+        Doc3 { v: v.clone(), a: AltA::from_json(v), b: AltB::from_json(v), c: AltA::from_json(&sorted_members(v)) }
     }
+}
+
+fn as_multiset(o: &Obs) -> Result<Vec<(String, String)>, String> {
+    o.clone().map(|mut v| {
+        // values are compared modulo member order as well
+        for x in v.iter_mut() {
+            if let Ok(val) = serde_json::from_str::<Value>(&x.1) {
+                x.1 = serde_json::to_string(&sorted_members(&val)).unwrap();
+            }
+        }
+        v.sort();
+        v
+    })
 }
 
 pub fn lockstep(acc: &mut Acc, q: &str, d: &Doc3, class: &str) {
@@ -314,6 +343,16 @@ pub fn lockstep(acc: &mut Acc, q: &str, d: &Doc3, class: &str) {
             );
             return;
         }
+    }
+    // a view that presents the members of objects in another (sorted) order: the set of (path, value) results must
+    // be the same - member order may only influence the order of results, never membership
+    let r3 = run_on(q, &d.c);
+    if as_multiset(&r3) != as_multiset(&r0) {
+        acc.viol(
+            format!("{} on {}: serde_json::Value gives {:?} but a view presenting the same members in sorted order gives {:?} (as multisets they must agree)", q, d.v, r0, r3),
+            json!({"kind": "views", "class": format!("{} (member order)", class), "query": q, "doc": d.v}),
+        );
+        return;
     }
     acc.sample(|| json!({"query": q, "doc": d.v, "result": format!("{:?}", r0)}));
 }
@@ -428,6 +467,7 @@ pub fn replay(case: &Value, _run: &Run) -> Acc {
     println!("Value : {:?}", run_on(q, &d.v));
     println!("AltA  : {:?}", run_on(q, &d.a));
     println!("AltB  : {:?}", run_on(q, &d.b));
+    println!("AltA over member-sorted document : {:?}", run_on(q, &d.c));
     lockstep(&mut acc, q, &d, "replay");
     acc
 }
